@@ -211,6 +211,25 @@ func c07Transition(c *Case, req M) ([]Violation, *State) {
 		v.Sig = "C07/" + v.Sig
 		vs = append(vs, v)
 	}
+	// I5 on the answer as a whole: the criteria the request declares, changed as the bias entries of the answer report it
+	// one after the other, are the criteria the method received (a report rewritten by a later stage shows here)
+	var told []string
+	for _, cr := range asL(req["criteria"]) {
+		told = append(told, asS(asM(cr)["id"]))
+	}
+	for _, be := range resp.Biases {
+		om, ad := reportedCriteriaChange(be)
+		var kept []string
+		for _, id := range told {
+			if !contains(om, id) {
+				kept = append(kept, id)
+			}
+		}
+		told = append(kept, ad...)
+	}
+	if !sameSet(told, next.CritIDs()) || hasDup(told) {
+		vs = append(vs, viol(c, "C07/criteria-mismatch-in-answer/"+tag, "[%s]: the bias entries of the answer account for the criteria %v, the method received %v", fmtPath(bs), told, next.CritIDs()))
+	}
 	out := Decide(J(req), nil)
 	if !out.Accepted {
 		vs = append(vs, viol(c, "C07/conformance/"+tag, "[%s]: stepped run answers but MakeDecision rejects: %s", fmtPath(bs), out.Err))
